@@ -341,15 +341,15 @@ theorem rel_setPlayer_13 (s : State) (evs : List Event) (e : Env) (val : Int) (h
     Rel (step s (.setPlayer 13 val) e).state (⟨s, .setPlayer 13 val, e, (step s (.setPlayer 13 val) e).ret⟩ :: evs) := by
   rel_auto
 
-theorem setPlayer_other (s : State) (parm val : Int) (h0 : parm ≠ 0) (h1 : parm ≠ 1) (h2 : parm ≠ 2) (h3 : parm ≠ 3) (h4 : parm ≠ 4) (h5 : parm ≠ 5) (h6 : parm ≠ 6) (h7 : parm ≠ 7) (h8 : parm ≠ 8) (h9 : parm ≠ 9) (h10 : parm ≠ 10) (h11 : parm ≠ 11) (h12 : parm ≠ 12) (h13 : parm ≠ 13) :
-    (setPlayer s parm val).state = s ∧ (setPlayer s parm val).ret ≠ 0 := by
+theorem setPlayer_other (s : State) (parm val : Int) (e : Env) (h0 : parm ≠ 0) (h1 : parm ≠ 1) (h2 : parm ≠ 2) (h3 : parm ≠ 3) (h4 : parm ≠ 4) (h5 : parm ≠ 5) (h6 : parm ≠ 6) (h7 : parm ≠ 7) (h8 : parm ≠ 8) (h9 : parm ≠ 9) (h10 : parm ≠ 10) (h11 : parm ≠ 11) (h12 : parm ≠ 12) (h13 : parm ≠ 13) :
+    (setPlayer s parm val e).state = s ∧ (setPlayer s parm val e).ret ≠ 0 := by
   simp [setPlayer, *, ERR_STATE, ERR_INVALID]
   split <;> simp
 
 theorem rel_setPlayer_other (s : State) (evs : List Event) (e : Env) (parm val : Int) (hi : ApiInv s) (hr : Rel s evs)
     (h0 : parm ≠ 0) (h1 : parm ≠ 1) (h2 : parm ≠ 2) (h3 : parm ≠ 3) (h4 : parm ≠ 4) (h5 : parm ≠ 5) (h6 : parm ≠ 6) (h7 : parm ≠ 7) (h8 : parm ≠ 8) (h9 : parm ≠ 9) (h10 : parm ≠ 10) (h11 : parm ≠ 11) (h12 : parm ≠ 12) (h13 : parm ≠ 13) :
     Rel (step s (.setPlayer parm val) e).state (⟨s, .setPlayer parm val, e, (step s (.setPlayer parm val) e).ret⟩ :: evs) := by
-  have h := setPlayer_other s parm val h0 h1 h2 h3 h4 h5 h6 h7 h8 h9 h10 h11 h12 h13
+  have h := setPlayer_other s parm val e h0 h1 h2 h3 h4 h5 h6 h7 h8 h9 h10 h11 h12 h13
   unfold Rel at *
   simp only [step, expected, establishes, h.1, h.2, and_false, if_false]
   exact hr
@@ -490,9 +490,9 @@ theorem startMute_mem (c : Int) (xm : List Int) (x : Int) (h : x ∈ startMute c
   obtain ⟨i, _, rfl⟩ := h
   split <;> (try split) <;> omega
 
-theorem setPlayer_frame (s : State) (parm val : Int) :
-    (setPlayer s parm val).state.st = s.st ∧ (setPlayer s parm val).state.mute = s.mute
-      ∧ (setPlayer s parm val).state.vol = s.vol := by
+theorem setPlayer_frame (s : State) (parm val : Int) (e : Env) :
+    (setPlayer s parm val e).state.st = s.st ∧ (setPlayer s parm val e).state.mute = s.mute
+      ∧ (setPlayer s parm val e).state.vol = s.vol := by
   by_cases h0 : parm = 0
   · subst h0; simp [setPlayer]; repeat' split
     all_goals simp
@@ -826,7 +826,7 @@ theorem relCh_endSmix (s : State) (evs : List Event) (e : Env)  (hr : RelCh s ev
 
 theorem relCh_setPlayer (s : State) (evs : List Event) (e : Env) (parm val : Int) (hr : RelCh s evs) :
     RelCh (step s (.setPlayer parm val) e).state (⟨s, .setPlayer parm val, e, (step s (.setPlayer parm val) e).ret⟩ :: evs) := by
-  have h := setPlayer_frame s parm val
+  have h := setPlayer_frame s parm val e
   apply relCh_frame s _ _ evs hr
   · simpa [step] using h.2.1
   · simpa [step] using h.2.2
